@@ -73,6 +73,21 @@ pub struct RDebug {
     r_ldbase: ElfAddr, /* Base address the linker is loaded at.  */
 }
 
+/// Upper bound on the number of `link_map` entries we follow. The list lives in the memory of the
+/// (crashed) target, so it may be corrupt, e.g. cyclic.
+const MAX_DSO_COUNT: usize = 16 * 1024;
+
+/// Copies exactly `length` bytes from the target, a shorter (partial) read is an error.
+fn copy_exact(blamed_thread: i32, src: usize, length: usize) -> Result<Vec<u8>> {
+    let data = PtraceDumper::copy_from_process(blamed_thread, src, length)?;
+    if data.len() < length {
+        return Err(SectionDsoDebugError::CouldNotFind(
+            "complete linker data in the target (short read)",
+        ));
+    }
+    Ok(data)
+}
+
 pub fn write_dso_debug_stream(
     buffer: &mut Buffer,
     blamed_thread: i32,
@@ -85,7 +100,12 @@ pub fn write_dso_debug_stream(
         .get_program_header_address()
         .ok_or(SectionDsoDebugError::CouldNotFind("AT_PHDR in auxv"))? as usize;
 
-    let ph = PtraceDumper::copy_from_process(blamed_thread, phdr, SIZEOF_PHDR * phnum_max)?;
+    let ph_size = SIZEOF_PHDR
+        .checked_mul(phnum_max)
+        .ok_or(SectionDsoDebugError::CouldNotFind(
+            "plausible AT_PHNUM in auxv",
+        ))?;
+    let ph = copy_exact(blamed_thread, phdr, ph_size)?;
     let program_headers;
     #[cfg(target_pointer_width = "64")]
     {
@@ -108,7 +128,7 @@ pub fn write_dso_debug_stream(
         // Adjust base address with the virtual address of the PT_LOAD segment
         // corresponding to offset 0
         if ph.p_type == goblin::elf::program_header::PT_LOAD && ph.p_offset == 0 {
-            base -= ph.p_vaddr as usize;
+            base = base.wrapping_sub(ph.p_vaddr as usize);
         }
         if ph.p_type == goblin::elf::program_header::PT_DYNAMIC {
             dyn_addr = ph.p_vaddr;
@@ -121,7 +141,7 @@ pub fn write_dso_debug_stream(
         ));
     }
 
-    dyn_addr += base as ElfAddr;
+    dyn_addr = dyn_addr.wrapping_add(base as ElfAddr);
 
     let dyn_size = std::mem::size_of::<goblin::elf::Dyn>();
     let mut r_debug = 0usize;
@@ -131,9 +151,9 @@ pub fn write_dso_debug_stream(
     // DSOs loaded into the program. If this information is indeed available,
     // dump it to a MD_LINUX_DSO_DEBUG stream.
     loop {
-        let dyn_data = PtraceDumper::copy_from_process(
+        let dyn_data = copy_exact(
             blamed_thread,
-            dyn_addr as usize + dynamic_length,
+            (dyn_addr as usize).wrapping_add(dynamic_length),
             dyn_size,
         )?;
         dynamic_length += dyn_size;
@@ -159,8 +179,7 @@ pub fn write_dso_debug_stream(
     // See <link.h> for a more detailed discussion of the how the dynamic
     // loader communicates with debuggers.
 
-    let debug_entry_data =
-        PtraceDumper::copy_from_process(blamed_thread, r_debug, std::mem::size_of::<RDebug>())?;
+    let debug_entry_data = copy_exact(blamed_thread, r_debug, std::mem::size_of::<RDebug>())?;
 
     // goblin::elf::Dyn doesn't have padding bytes
     let (head, body, _tail) = unsafe { debug_entry_data.align_to::<RDebug>() };
@@ -170,12 +189,8 @@ pub fn write_dso_debug_stream(
     // Count the number of loaded DSOs
     let mut dso_vec = Vec::new();
     let mut curr_map = debug_entry.r_map;
-    while curr_map != 0 {
-        let link_map_data = PtraceDumper::copy_from_process(
-            blamed_thread,
-            curr_map,
-            std::mem::size_of::<LinkMap>(),
-        )?;
+    while curr_map != 0 && dso_vec.len() < MAX_DSO_COUNT {
+        let link_map_data = copy_exact(blamed_thread, curr_map, std::mem::size_of::<LinkMap>())?;
 
         // LinkMap is repr(C) and doesn't have padding bytes, so this should be safe
         let (head, body, _tail) = unsafe { link_map_data.align_to::<LinkMap>() };
